@@ -205,4 +205,5 @@ def invoke(draw, objs=True, links=True):
         return None
     return {"plan": draw(st.lists(st.sampled_from([0, 0, 1, 2]), min_size=1, max_size=4)),
             "obj": draw(st.sampled_from([None, None, "analysis"])) if objs else None,
-            "wf_link": draw(st.sampled_from([False, False, True])) if links else False}
+            "wf_link": draw(st.sampled_from([False, False, True])) if links else False,
+            "stale_tmp": draw(st.sampled_from([False, False, True]))}
